@@ -253,7 +253,11 @@ def run(tier):
             for target in (d + b"\t$\r\n", d + b"\t+\r\n", d + b"\r\n", b"GET " + d + b" HTTP/1.0\r\n\r\n", d + b"\t!\r\n"):
                 corpus.append(([find_req(first)], find_req(target)))
     if tier == "quick":
-        corpus = rng.sample(corpus, 36)          # thorough runs the whole product
+        # thorough runs the whole product; quick keeps, for every directory and every form of the second request, one first request
+        by = {}
+        for h, tg in corpus:
+            by.setdefault((reqs[tg][0]), []).append((h, tg))
+        corpus = [rng.choice(v) for v in by.values()]
     corpus += [([find_req(b"/md/new\r\n")], find_req(b"/md\r\n")),
               ([find_req(b"/dir1\r\n")], find_req(b"/dir1/.cache.pygopherd.dir\r\n")),
               ([find_req(b"/md\r\n"), find_req(b"/mail.mbox\r\n")], find_req(b"/mail.mbox|/MBOX-MESSAGE/2\r\n"))]
